@@ -370,7 +370,7 @@ func gen(r *lib.Rand, tier string, emit func(string)) {
 			emitCase(r, emit, c, T, false, 4, true)
 			emitCase(r, emit, c, T, true, 4, true)
 		}
-		for i := 0; i < 8192; i++ {
+		for i := 0; i < 4096; i++ {
 			emitCase(r, emit, c, uint16(r.Intn(65536)), r.Bool(), 2, i%8 == 0)
 		}
 	}
